@@ -385,6 +385,134 @@ class C13(PropBase):
         toks.append("sk=%s runs=%d seed=%d" % (",".join(map(str, sk)), rng.choice([4, 6]), rng.range(1, 1 << 30)))
         return " ".join(toks)
 
+    def cfi_redef_case(self, rng):
+        """STACK CFI records whose delta lines (and sometimes one line twice) RE-DEFINE a general register and then
+        define a second name of the same register (arm64 x29/fp, x30/lr; arm r11/fp, r14/lr): whatever order the rules
+        are applied in must be a function of the record, not of a hash seed.  Every rule is a distinct constant of the
+        same length, so which rule won is visible in the caller's registers (text report) and in the frames after it."""
+        cpu = rng.choice(["arm64", "arm64", "arm"])
+        bits, ips, sps, fps, lrs, pre = CPUS[cpu]
+        w = bits // 8
+        pairs = [("x29", "fp"), ("x30", "lr")] if cpu == "arm64" else [("r11", "fp"), ("r14", "lr")]
+        others = ["x19", "x20", "x21"] if cpu == "arm64" else ["r4", "r5", "r6"]
+        size = 0x10000
+        mods = [(0x400000 + i * 0x100000, size) for i in range(2)]
+        toks = ["cpu=" + cpu, "os=" + rng.choice(["linux", "android", "mac", "ios"]), "opt=%d" % rng.below(3)]
+        used = set()
+        def val():
+            while True:
+                v = rng.range(100, 999)
+                if v not in used:
+                    used.add(v)
+                    return v
+        for i, (b, s_) in enumerate(mods):
+            a, bname = pairs[rng.below(2)]
+            if rng.chance(1, 2):
+                a, bname = bname, a
+            init = [a] + [o for o in others if rng.chance(1, 2)]
+            if rng.chance(1, 3):
+                a2, b2 = pairs[rng.below(2)]
+                if a2 not in init and b2 not in init:
+                    init.append(rng.choice([a2, b2]))
+            for k in range(len(init) - 1, 0, -1):
+                j = rng.below(k + 1)
+                init[k], init[j] = init[j], init[k]
+            lines = ["STACK CFI INIT 0 %x .cfa: sp %d + .ra: .cfa %d - ^ %s" % (s_, 2 * w, w, " ".join("%s: %d" % (n, val()) for n in init))]
+            defined = list(init)
+            nd = rng.range(1, 3)
+            forced = rng.below(nd)
+            for d in range(nd):
+                rules = []
+                if d == forced:
+                    # re-definitions first (the forced one among them), then the alias as the next NEW name
+                    redo = [a] + [n for n in defined if n != a and rng.chance(1, 3)]
+                    for k in range(len(redo) - 1, 0, -1):
+                        j = rng.below(k + 1)
+                        redo[k], redo[j] = redo[j], redo[k]
+                    rules = redo + [bname]
+                    if rng.chance(1, 3):
+                        rules.append(rng.choice(others))
+                    if rng.chance(1, 4):
+                        rules.append(rng.choice([a, bname]))       # and once more on the same line
+                else:
+                    for _ in range(rng.range(1, 3)):
+                        rules.append(rng.choice(defined + others + [bname]))
+                for n in rules:
+                    if n not in defined:
+                        defined.append(n)
+                lines.append("STACK CFI %x %s" % (4 * (d + 1), " ".join("%s: %d" % (n, val()) for n in rules)))
+            text = "MODULE Linux %s 000000000000000000000000000000000 r%d\nFUNC 0 %x 0 fn%d\n%s\n" % (cpu, i, s_, i, "\n".join(lines))
+            toks.append("S=" + hx(text.encode()))
+            toks.append("M=%d:%d:%s:%d" % (b, s_, hx(("/lib/redef%d.so" % i).encode()), i))
+        nthreads = rng.range(1, 3)
+        for t in range(nthreads):
+            base = 0x10000 + t * 0x10000
+            words = []
+            for k in range(16):
+                b, s_ = rng.choice(mods)
+                words.append(b + 0x40 + rng.below(0x800) if k % 2 else base + w * (k + 2))
+            stack = b"".join((x & ((1 << bits) - 1)).to_bytes(w, "little") for x in words)
+            b, s_ = mods[t % 2]
+            regs = ["%s=%d" % (n, b + 0x40 + 4 * rng.below(0x40)) for n in ips]
+            regs += ["%s=%d" % (n, base) for n in sps]
+            regs += ["%s=%d" % (n, base + 2 * w) for n in fps]
+            regs += ["%s=%d" % (n, rng.choice(mods)[0] + 0x80) for n in lrs]
+            toks.append("T=%d:%d:%s:%s" % (t + 1, base, hx(stack), ",".join(regs)))
+        return " ".join(toks)
+
+    def deep_threads_case(self, rng, total_min=17000, total_max=24000):
+        """2..4 threads in deep recursion (thousands of frames each, tens of thousands together; stacks generated by the
+        harness from deep=), each thread in its own module, modules with CFI / without symbols (frame pointers), and a
+        per-module suspension script rotated per run: any per-dump resource that the walks draw from in the order they
+        FINISH (a shared frame / time / memory budget, a shared counter) shows as a difference between schedules."""
+        cpu = rng.choice(["amd64", "amd64", "arm64", "x86"])
+        bits, ips, sps, fps, lrs, pre = CPUS[cpu]
+        w = bits // 8
+        sp = pre + sps[0]
+        fp = "x29" if cpu == "arm64" else pre + fps[0]
+        nthreads = rng.range(2, 4)
+        nm = max(2, nthreads - rng.below(2))
+        size = 0x10000
+        toks = ["cpu=" + cpu, "os=" + rng.choice(["linux", "win", "mac", "android"]), "opt=%d" % rng.below(3)]
+        mods, ns = [], 0
+        for i in range(nm):
+            base = 0x400000 + i * 0x100000
+            name = rng.choice(["/lib/deep%d.so", "C:\\w\\deep%d.dll"]) % i
+            if rng.chance(2, 3):
+                text = ("MODULE Linux %s 000000000000000000000000000000000 d%d\nFUNC 0 %x 0 recurse_%d\nSTACK CFI INIT 0 %x .cfa: %s %d + .ra: .cfa %d - ^ %s: .cfa %d - ^\n"
+                        % (cpu, i, size, i, size, sp, 2 * w, w, fp, 2 * w))
+                toks.append("S=" + hx(text.encode()))
+                toks.append("M=%d:%d:%s:%d" % (base, size, hx(name.encode()), ns))
+                ns += 1
+            else:
+                toks.append("M=%d:%d:%s:-" % (base, size, hx(name.encode())))
+            mods.append(base)
+        total = rng.range(total_min, total_max)
+        # split: either roughly equal, or one runaway thread plus smaller ones
+        if rng.chance(1, 2):
+            parts = [total // nthreads + rng.below(500) for _ in range(nthreads)]
+        else:
+            parts = [2000 + rng.below(1500) for _ in range(nthreads)]
+            j = rng.below(nthreads)
+            parts[j] = max(3000, total - (sum(parts) - parts[j]))
+        deep = []
+        for t in range(nthreads):
+            base = 0x10000000 + t * 0x1000000
+            mi = t % nm
+            ras = [mods[mi] + 0x100 + 4 * rng.below(0x400) for _ in range(rng.range(1, 3))]
+            regs = ["%s=%d" % (n, mods[mi] + 0x40 + 4 * rng.below(0x40)) for n in ips]
+            regs += ["%s=%d" % (n, base) for n in sps]
+            regs += ["%s=%d" % (n, base) for n in fps]
+            regs += ["%s=%d" % (n, ras[0]) for n in lrs]
+            toks.append("T=%d:%d:z16:%s" % (t + 1, base, ",".join(regs)))
+            deep.append("%d:%d:%s" % (t, parts[t], "+".join(map(str, ras))))
+        toks.append("deep=" + ";".join(deep))
+        sk = [rng.choice([0, 1, 2, 3, 5]) for _ in range(nm)]
+        if len(set(sk)) == 1:
+            sk[0] += 3
+        toks.append("sk=%s runs=2 seed=%d" % (",".join(map(str, sk)), rng.range(1, 1 << 30)))
+        return " ".join(toks)
+
     def gen_cases(self, tier, seed):
         rng = Rng(seed)
         g = Gen(rng)
@@ -406,6 +534,13 @@ class C13(PropBase):
         dist["cfi_early_exit_after_push"] = n_fam
         dist["public_aliases_same_address"] = n_fam
         dist["key_dictionary"] = keys
+        n_deep = 4 if tier == "quick" else 30
+        for _ in range(n_deep):
+            cases.append(self.deep_threads_case(rng) if tier == "quick" else self.deep_threads_case(rng, 17000, 40000))
+        dist["deep_threads_shared_budget"] = n_deep
+        for _ in range(n_fam):
+            cases.append(self.cfi_redef_case(rng) + " " + self.sched_suffix(rng, 8))
+        dist["cfi_redefinition_then_alias"] = n_fam
         alpha = "abMx  \t019+-ulimted"
         for _ in range(n_r):
             if rng.chance(1, 2):
